@@ -1,6 +1,8 @@
 package main
 
 import (
+	"github.com/streamingfast/shutter"
+	"go.uber.org/zap"
 	"errors"
 	"fmt"
 	"io"
@@ -44,6 +46,43 @@ func linearChain(first, last uint64) []TBlock {
 		out = append(out, TBlock{ID: fmt.Sprintf("%da", n), Parent: fmt.Sprintf("%da", n-1), Num: n, Lib: lib})
 	}
 	return out
+}
+
+// pushSrc is a source that, like every real source, calls its handler from inside Run: Run cannot return while a
+// handler call is in flight (a TestSource pushed from another goroutine does not have this property).
+type pushSrc struct {
+	*shutter.Shutter
+	h      bstream.Handler
+	blocks []TBlock
+	gap    time.Duration
+	before time.Duration      // pause before the first block
+	after  func(p *pushSrc)   // called (inside Run) once every block was delivered
+}
+
+func newPushSrc(h bstream.Handler, blocks []TBlock) *pushSrc {
+	return &pushSrc{Shutter: shutter.New(), h: h, blocks: blocks, gap: 200 * time.Microsecond}
+}
+
+func (p *pushSrc) SetLogger(*zap.Logger) {}
+
+func (p *pushSrc) Run() {
+	if p.before > 0 {
+		time.Sleep(p.before)
+	}
+	for _, b := range p.blocks {
+		if p.IsTerminating() {
+			return
+		}
+		if err := p.h.ProcessBlock(b.pb(), nil); err != nil {
+			p.Shutdown(err)
+			return
+		}
+		time.Sleep(p.gap)
+	}
+	if p.after != nil && !p.IsTerminating() {
+		p.after(p)
+	}
+	<-p.Terminating()
 }
 
 // newReadyHub returns a ready hub holding the linear chain first..head, and its live test source
@@ -304,7 +343,6 @@ func suiteShutdown(o *Out, r *Rng, n int, tier string) {
 				return ts
 			}
 			liveCalls := 0
-			var fileSrc *bstream.TestSource
 			lsf := bstream.NewTestSourceFactory()
 			fsf := bstream.NewTestSourceFactory()
 			lsf.LowestBlkNum = 5
@@ -326,8 +364,12 @@ func suiteShutdown(o *Out, r *Rng, n int, tier string) {
 				if where == "in-file-factory" {
 					js.Shutdown(errors.New("shutdown in file factory"))
 				}
-				fileSrc = mk(h)
-				return fileSrc
+				// the file phase: blocks 2,3,4 then 5 triggers the join; delivered from inside the source's own Run
+				fs := newPushSrc(h, linearChain(2, 6))
+				imu.Lock()
+				inner = append(inner, fs)
+				imu.Unlock()
+				return fs
 			}
 			if where == "in-handler" {
 				l.onCall = func(k int) {
@@ -342,24 +384,12 @@ func suiteShutdown(o *Out, r *Rng, n int, tier string) {
 			}
 			done := make(chan struct{})
 			go func() { js.Run(); close(done) }()
-			// drive the file phase: blocks 2,3,4 then 5 triggers the join
-			go func() {
-				for t := 0; t < 200 && fileSrc == nil && where != "in-live-factory" && where != "before-run"; t++ {
-					time.Sleep(time.Millisecond)
-				}
-				if fileSrc != nil {
-					for _, b := range linearChain(2, 6) {
-						if fileSrc.IsTerminating() {
-							break
-						}
-						fileSrc.Push(b.pb(), nil)
-					}
-				}
-				if where == "async" {
+			if where == "async" {
+				go func() {
 					time.Sleep(2 * time.Millisecond)
 					js.Shutdown(errors.New("async shutdown"))
-				}
-			}()
+				}()
+			}
 			imu.Lock()
 			in := append([]bstream.Source(nil), inner...)
 			imu.Unlock()
@@ -384,26 +414,29 @@ func suiteShutdown(o *Out, r *Rng, n int, tier string) {
 				if (where == "in-factory-1" && calls == 1) || (where == "in-factory-2" && calls == 2) {
 					es.Shutdown(errors.New("shutdown in factory"))
 				}
-				ts := bstream.NewTestSource(h)
-				imu.Lock()
-				inner = append(inner, ts)
-				imu.Unlock()
-				go func(c int) { // feed two blocks then fail the inner source so that the eternal source restarts
-					time.Sleep(time.Millisecond)
-					base := uint64(10 * c)
-					ts.Push(TBlock{ID: fmt.Sprintf("%da", base+1), Parent: "p", Num: base + 1}.pb(), nil)
-					ts.Push(TBlock{ID: fmt.Sprintf("%da", base+2), Parent: fmt.Sprintf("%da", base+1), Num: base + 2}.pb(), nil)
-					if where == "during-restart-delay" && c == 1 {
-						ts.Shutdown(errors.New("inner failure"))
-						time.Sleep(time.Millisecond)
-						es.Shutdown(errors.New("shutdown during restart delay"))
-						return
-					}
+				// the inner source delivers two blocks from inside its own Run, then (first incarnation) fails so that the
+				// eternal source restarts
+				c := calls
+				base := uint64(10 * c)
+				ps := newPushSrc(h, []TBlock{
+					{ID: fmt.Sprintf("%da", base+1), Parent: "p", Num: base + 1},
+					{ID: fmt.Sprintf("%da", base+2), Parent: fmt.Sprintf("%da", base+1), Num: base + 2}})
+				ps.before = time.Millisecond
+				ps.after = func(p *pushSrc) {
 					if c == 1 {
-						ts.Shutdown(errors.New("inner failure"))
+						p.Shutdown(errors.New("inner failure"))
+						if where == "during-restart-delay" {
+							go func() {
+								time.Sleep(time.Millisecond)
+								es.Shutdown(errors.New("shutdown during restart delay"))
+							}()
+						}
 					}
-				}(calls)
-				return ts
+				}
+				imu.Lock()
+				inner = append(inner, ps)
+				imu.Unlock()
+				return ps
 			})
 			if where == "in-handler" {
 				l.onCall = func(k int) {
